@@ -163,8 +163,6 @@ class Oracle:
         self.ep = None
         self.prev_closed = -10 ** 9
         self.prev_retry_open = False
-        self.out = []            # (mechanism, detail)
-        self.seen = set()
         self.idle = 0
         self.qwait = 0
         self.flight = None       # start cycle of the header currently on the wire
